@@ -105,15 +105,6 @@ def all_ids(f):
     return set(found)
 
 
-def strip(tree, drop_top_name):
-    walker.CORE[0] = True
-    t = walker.canon(tree, drop=("created_at", "updated_at") if False else ())
-    if drop_top_name and isinstance(t, dict):
-        t = dict(t)
-        t.pop("name", None)
-    return t
-
-
 def core_subtree(e):
     walker.CORE[0] = True
     try:
